@@ -194,3 +194,23 @@ mutant("c14-callee-evaluated-twice-for-builtins",
        [(E, "    let (func_name, v) =\n        {\n            let SourcedValue{v, source} = func_val;",
             "    let func_val =\n        if let Value::BuiltinFunc{..} = func_val.v {\n            eval_expr(context, scopes, func)\n                .context(EvalCallFuncFailed)?\n        } else {\n            func_val\n        };\n\n    let (func_name, v) =\n        {\n            let SourcedValue{v, source} = func_val;")],
        [("C14", "R14.1")])
+
+# ---- C11 ---------------------------------------------------------------------
+mutant("c11-elem-assign-off-by-one",
+       [(B, "                    if n >= lock_deref!(items).len() {", "                    if n > lock_deref!(items).len() {")],
+       [("C11", "R11.3")])
+mutant("c11-range-assign-allows-empty-range",
+       [(B, "    } else if start >= end {", "    } else if start > end {")],
+       [("C11", "R11.4")])
+mutant("c11-range-assign-drops-count-check",
+       [(B, "    let range_len = end - start;\n    if range_len != rhs_len {\n        return new_loc_err(Error::RangeIndexItemMismatch{\n            range_len,\n            rhs_len,\n        });\n    }\n", "")],
+       [("C11", "R11.4")])
+mutant("c11-range-assign-end-defaults-len-minus-one",
+       [(B, "        } else {\n            list_len\n        };", "        } else {\n            list_len - 1\n        };")],
+       [("C11", "R11.5")])
+mutant("c11-negative-index-test-inclusive",
+       [(E, "    if index < 0 {\n        return new_loc_err(Error::NegativeIndex{index});", "    if index <= 0 {\n        return new_loc_err(Error::NegativeIndex{index});")],
+       [("C11", "R11.1")], note="index 0 rejected (tests would catch; table check)")
+refactor("c11-guard-written-negated",
+         [(B, "                    if n >= lock_deref!(items).len() {", "                    if !(n < lock_deref!(items).len()) {")],
+         note="same test written as !(n < len)")
